@@ -15,4 +15,7 @@ VARIANTS = [
     # benign
     V('benign-rename-loopvar', D, ("for i in range(shape[0]):\n            if pdims:\n                strr += (\"DIM \" + str(i) + \":\\n\")\n            strr += dispa(matrix[i,], nd = nd, new = False)", "for k in range(shape[0]):\n            if pdims:\n                strr += (\"DIM \" + str(k) + \":\\n\")\n            strr += dispa(matrix[k,], nd = nd, new = False)"), 'silent'),
     V('benign-explicit-false', D, ("if not noprint:\n        print(matstr)", "if noprint == False:\n        print(matstr)"), 'silent'),
+    V('latex-int-conversion-unguarded', D, ("strr+= str(round(val, nd))", "val = round(val, nd)\n            if nd == 0:\n                val = int(val)\n            strr+= str(val)"), 'fire', 'R20.4'),
+    V('latex-round-on-raw-element', D, ("val = matrix[i, j]\n            if not hasattr(val, '__round__'):\n                #numpy.bool has no __round__\n                val = float(val)\n            strr+= str(round(val, nd))", "strr+= str(round(matrix[i, j], nd))"), 'fire', 'R20.5'),
+    V('benign-latex-float-conversion-first', D, ("val = matrix[i, j]\n            if not hasattr(val, '__round__'):\n                #numpy.bool has no __round__\n                val = float(val)\n            strr+= str(round(val, nd))", "strr+= str(round(float(matrix[i, j]), nd))"), 'silent'),
 ]
